@@ -103,7 +103,7 @@ fn collections(seed: u64, rep: &mut Report) {
     sizes.extend([191, 192, 193, 255, 256, 257, 320, 511, 512, 513, 640, 1000, 1023, 1024, 1025, 2048, 4096, 4097, 10_000, 65_536, 65_537, 131_073, 300_000, 1_048_577, 1_200_000]);
     for (k, &size) in sizes.iter().enumerate() {
         let first = (k as u32) * 7;
-        let mut rng = TraceRng::new(mix(seed, size as u64));
+        let mut rng = TraceRng::stream(mix(seed, size as u64));
         // Vec through the three construction paths
         let c = Counting::new(first);
         let v: Vec<El> = Generator::new(&c, size).sample(&mut rng);
